@@ -13,7 +13,7 @@ for d in seeded/*/; do
   if [ -n "${SEEDS:-}" ] && ! echo "$name" | grep -Eq "$SEEDS"; then continue; fi
   prop=$(python3 -c "import json;m=json.load(open('$d/meta.json'));print(m.get('check_property',m['property']))")
   [ "$name" = "C12" ] && prop="C12"
-  git -C $R apply $d/patch.diff || { echo "MISS $name: patch does not apply"; fail=1; continue; }
+  git -C $R apply "$PWD/${d}patch.diff" || { echo "MISS $name: patch does not apply"; fail=1; continue; }
   out=$(timeout 1800 ./check.sh $prop quick 2>&1); rc=$?
   git -C $R checkout -- .
   git checkout -- evidence/$prop.json 2>/dev/null; rm -rf replays/$prop
